@@ -4,7 +4,6 @@ import (
 	"errors"
 	"fmt"
 	"maps"
-	"reflect"
 
 	"github.com/kaptinlin/gozod/core"
 	"github.com/kaptinlin/gozod/internal/checks"
@@ -115,12 +114,10 @@ func (z *ZodDiscriminatedUnion[T, R]) Parse(input any, ctx ...*core.ParseContext
 
 // parseVariant dispatches to the matching schema or falls back to trying all options.
 func (z *ZodDiscriminatedUnion[T, R]) parseVariant(m map[string]any, dv any, pctx *core.ParseContext) (any, error) {
-	// Only comparable values can be looked up; an unhashable discriminator (slice, map, func)
-	// matches no option and falls through to the option loop.
-	if dv == nil || reflect.TypeOf(dv).Comparable() {
-		if target, ok := z.internals.DiscMap[dv]; ok {
-			return target.ParseAny(m, pctx)
-		}
+	// An unhashable discriminator (slice, map, func, or a struct/array holding one in an interface
+	// field) matches no option and falls through to the option loop.
+	if target, ok := lookupHashable(z.internals.DiscMap, dv); ok {
+		return target.ParseAny(m, pctx)
 	}
 
 	errs := make([]error, 0, len(z.internals.Options))
